@@ -1118,7 +1118,9 @@ int main(int argc, char **argv)
 			char *path = pct_decode(ARG(2));
 			unsigned idx = atoi(ARG(3));
 			long v = strtol(ARG(4), NULL, 10);
-			int r = t[0][0] == 'o' ? cfg_opt_setnint(cfg_getopt(c, path), v, idx) : cfg_setnint(c, path, v, idx);
+			int r = t[0][0] == 'o' ? cfg_opt_setnint(cfg_getopt(c, path), v, idx)
+				: (idx == 0 && (cmd_index & 1)) ? cfg_setint(c, path, v)	/* the index-less wrapper, every other call */
+				: cfg_setnint(c, path, v, idx);
 			emit_int(t[0], r);
 			free(path);
 		} else if (strcmp(t[0], "setfloat") == 0 || strcmp(t[0], "osetfloat") == 0) {
@@ -1126,7 +1128,9 @@ int main(int argc, char **argv)
 			char *path = pct_decode(ARG(2));
 			unsigned idx = atoi(ARG(3));
 			double v = strtod(ARG(4), NULL);
-			int r = t[0][0] == 'o' ? cfg_opt_setnfloat(cfg_getopt(c, path), v, idx) : cfg_setnfloat(c, path, v, idx);
+			int r = t[0][0] == 'o' ? cfg_opt_setnfloat(cfg_getopt(c, path), v, idx)
+				: (idx == 0 && (cmd_index & 1)) ? cfg_setfloat(c, path, v)	/* the index-less wrapper, every other call */
+				: cfg_setnfloat(c, path, v, idx);
 			emit_int(t[0], r);
 			free(path);
 		} else if (strcmp(t[0], "setbool") == 0 || strcmp(t[0], "osetbool") == 0) {
@@ -1134,7 +1138,9 @@ int main(int argc, char **argv)
 			char *path = pct_decode(ARG(2));
 			unsigned idx = atoi(ARG(3));
 			int v = atoi(ARG(4));
-			int r = t[0][0] == 'o' ? cfg_opt_setnbool(cfg_getopt(c, path), v, idx) : cfg_setnbool(c, path, v, idx);
+			int r = t[0][0] == 'o' ? cfg_opt_setnbool(cfg_getopt(c, path), v, idx)
+				: (idx == 0 && (cmd_index & 1)) ? cfg_setbool(c, path, v)
+				: cfg_setnbool(c, path, v, idx);
 			emit_int(t[0], r);
 			free(path);
 		} else if (strcmp(t[0], "setstr") == 0 || strcmp(t[0], "osetstr") == 0) {
@@ -1142,7 +1148,9 @@ int main(int argc, char **argv)
 			char *path = pct_decode(ARG(2));
 			unsigned idx = atoi(ARG(3));
 			char *v = pct_decode(ARG(4));
-			int r = t[0][0] == 'o' ? cfg_opt_setnstr(cfg_getopt(c, path), v, idx) : cfg_setnstr(c, path, v, idx);
+			int r = t[0][0] == 'o' ? cfg_opt_setnstr(cfg_getopt(c, path), v, idx)
+				: (idx == 0 && (cmd_index & 1)) ? cfg_setstr(c, path, v)
+				: cfg_setnstr(c, path, v, idx);
 			emit_int(t[0], r);
 			free(path);
 			free(v);
